@@ -37,7 +37,7 @@ MDivModStep(rem, b, j, q) ==
           ELSE MDivModStep(rem, b, j - 1, q)
 MDivMod(a, b) ==
   IF MCmp(a, b) < 0 THEN <<<<>>, a>>
-  ELSE IF Len(b) = 1 THEN MDivSmall(a, b[1])
+  ELSE IF Len(b) = 1 THEN LET t == MDivSmall(a, b[1]) IN <<t[1], MagOfNat(t[2])>>
   ELSE MDivModStep(a, b, MBitLen(a) - MBitLen(b), <<>>)
 
 \* floored division of signed integers: <<q, r>> with x = q*y + r, r = 0 or sign(r) = sign(y)
